@@ -206,5 +206,30 @@ def run_case(desc):
                             err = min(err, R - err)
                         if tol < R and err > tol:
                             viol(f"{method}: result for an integer-typed input array is not congruent to the input", lower=lo, upper=hi, x=x, out=o, exact_image=float(img))
+    # boxes given as integer-typed arrays (np.array([(-5, 5)]) is one; the documentation writes bounds that way): the range is a real number,
+    # not an element of the array's integer type
+    if desc.get("idx", 0) % 4 == 1:
+        for dt, lo_i, hi_i in ((np.int8, -100, 100), (np.int16, -30000, 30000), (np.int32, -(2**31) + 5, 2**31 - 5), (np.int64, -5, 7), (np.uint8, 3, 250)):
+            ib = np.array([[lo_i, hi_i]] * 2, dtype=dt)
+            R_ = hi_i - lo_i
+            xs = np.array([[lo_i - 0.25 * R_, hi_i + 0.5 * R_], [hi_i + 1.0, lo_i - 1.0], [lo_i + 0.5 * R_, hi_i + 2.25 * R_], [float(lo_i), float(hi_i)]], dtype=np.float64)
+            for method in METHODS:
+                try:
+                    out = np.asarray(apply_bounds(xs.copy(), ib, method), dtype=np.float64)
+                except Exception as e:
+                    viol(f"{method}: raised {type(e).__name__} for a box given as an integer-typed array", dtype=np.dtype(dt).name, error=repr(e)[:100])
+                    continue
+                cov["integer_typed_bounds_arrays"] += 1
+                for i in range(xs.shape[0]):
+                    for j in range(2):
+                        x, o = float(xs[i, j]), float(out[i, j])
+                        img = exact_image(Fraction(x), Fraction(lo_i), Fraction(hi_i), method)
+                        tol = Fraction(8 * EPS) * (abs(Fraction(x)) + abs(lo_i) + abs(hi_i))
+                        err = abs(Fraction(o) - img) if o == o else None
+                        if err is not None and method == "toroidal" and err <= R_:
+                            err = min(err, R_ - err)
+                        if err is None or not (lo_i <= o <= hi_i) or err > tol:
+                            viol(f"{method}: wrong result for a box given as an integer-typed array whose range does not fit the array's type" if R_ > np.iinfo(dt).max else f"{method}: wrong result for a box given as an integer-typed array",
+                                 dtype=np.dtype(dt).name, lower=lo_i, upper=hi_i, x=x, out=o if o == o else "nan", exact_image=float(img))
     sample = {"box": desc["box"], "n_points": len(desc["points_hex"]), "first_points": desc["points_hex"][:3], "classes": classes[:3]}
     return {"violations": violations, "cov": cov, "nontrivial": [list(x) for x in nontrivial], "sample": sample}
